@@ -17,12 +17,16 @@ demo_cmd() { # $1 = tree root, $2 = lib dir, $3 = output
 WITH=0; WITHRC=""
 if [ $BUILD = 0 ]; then
   $(demo_cmd $WT $WT/_b $O/demo_with) > $O/demo_build_with.log 2>&1
+  if [ -x $O/demo_with ]; then
   for i in 1 2 3; do timeout 300 $O/demo_with > $O/demo_with.out 2>&1; rc=$?; WITHRC="$WITHRC $rc"; if [ $rc != 0 ]; then WITH=1; break; fi; done
+  else WITHRC="demo-compile-failed"; fi
 fi
 git checkout -q -- . ; git clean -fdq -e _b
 $(demo_cmd $BASE $BASE/_b $O/demo_without) > $O/demo_build_without.log 2>&1
 WITHOUT=1; WORC=""
+if [ -x $O/demo_without ]; then
 for i in 1 2; do timeout 400 $O/demo_without > $O/demo_without.out 2>&1; rc=$?; WORC="$WORC $rc"; if [ $rc != 0 ]; then WITHOUT=0; fi; done
+else WITHOUT=0; WORC="demo-compile-failed"; fi
 rm -rf $WT/_b $O/demo_with $O/demo_without
 OK=false; if [ $BUILD = 0 ] && [ $CT = 0 ] && [ $WITH = 1 ] && [ $WITHOUT = 1 ]; then OK=true; fi
 echo "{\"id\":\"$ID/$X\",\"ok\":$OK,\"build_rc\":$BUILD,\"ctest_rc\":$CT,\"demo_with_patch_rcs\":\"$WITHRC\",\"demo_without_patch_rcs\":\"$WORC\"}" > $O/confirm.json
